@@ -424,6 +424,30 @@ def main():
     proof = proof_side(pid, tier)
     corr = correspondence(tier, seed)
     violations = []          # (replay path, description, no_input_found)
+    # Layer P: the bodies of the pointer functions, re-translated from /repo/src now, against the hand-written definitions of
+    # Layer B (coq/Gen/README-P.md). A theorem that no longer checks is a broken tie between model and code for the
+    # properties that rest on those definitions.
+    layer_p = None
+    if cfg.get('bodies'):
+        try:
+            r = subprocess.run([sys.executable, os.path.join(ROOT, 'tools', 'body_check.py')], capture_output=True, text=True, timeout=900)
+            layer_p = json.loads(r.stdout)
+        except Exception as ex:
+            layer_p = dict(ok=False, failed=[dict(theorem='body_check.py', error=repr(ex))], functions=[], theorems=[])
+        pats = cfg['bodies']
+        def concerns(item):
+            name = (item.get('function') or '') + ' ' + (item.get('theorem') or '')
+            return pats == 'all' or any(re.search(p_, name, re.I) for p_ in pats) or not (item.get('function') or item.get('theorem', '').startswith(('P_', 'T_')))
+        bad = [f for f in (layer_p.get('failed') or []) if concerns(f)]
+        if not layer_p.get('ok') and not layer_p.get('failed'):
+            bad = [dict(theorem='body_check.py', error='reported not ok without naming a theorem: ' + json.dumps(layer_p)[:600])]
+        if bad:
+            hdr = ['property=%s' % pid, 'Layer P (coq/Gen/BodiesProps.v against coq/Gen/Bodies.v regenerated from the current source): the translated body of a pointer function',
+                   'no longer has the semantics of the hand-written Layer B definition the theorems of this property are about:'] + \
+                  ['  %s %s: %s' % (f.get('function', ''), f.get('theorem', ''), str(f.get('error', ''))[:600].replace('\n', ' ')) for f in bad[:12]] + \
+                  ['unknown statements: %s' % (layer_p.get('unknown_statements'),)]
+            path = write_replay(pid, 'layerP', hdr, [])
+            violations.append((path, 'Layer P theorem(s) no longer check: %s' % ', '.join(sorted({f.get('theorem') or f.get('function') or '?' for f in bad})[:8]), True))
     if static is not None and not static[0]:
         det = static[1]
         hdr = ['property=%s' % pid, 'static check (Gen/C19Static.v over the call graph regenerated from /repo/src) fails:'] + \
@@ -522,11 +546,11 @@ def main():
     ev = dict(
         property_id=pid, tier=tier, seed=seed, level=cfg.get('level', 'proof'),
         coverage=dict(
-            obligations=max(proof['obligations'], 1), discharged=proof['discharged'],
+            obligations=max(proof['obligations'], 1) + (len(layer_p.get('theorems') or []) if layer_p else 0), discharged=proof['discharged'] + ((len(layer_p.get('theorems') or []) - len(layer_p.get('failed') or [])) if layer_p else 0),
             checker_cmd='make -C coq (coq_makefile, coqc 8.16.1, full .vo) && coqc -Q coq LruV coq/Properties/%s.v ; audit: no Admitted/admit/Axiom/Parameter/Conjecture/guard-off in coq/, Print Assumptions closed or allow-listed' % pid,
             trusted_base=TRUSTED_BASE + cfg.get('trusted_extra', []),
             theorems=proof['theorems'], axioms_reported=proof['axioms'], print_assumptions=proof.get('print_assumptions'),
-            proof_problems=proof['problems'], coqchk=proof.get('coqchk'), static_c19=(None if static is None else dict(ok=static[0], roots=static[1].get('roots'), functions=static[1].get('functions'), functions_with_write_primitive=static[1].get('functions_with_write_primitive'), clone=static[1].get('clone'), not_covered=static[1].get('not_covered'))),
+            proof_problems=proof['problems'], coqchk=proof.get('coqchk'), layer_p=(None if layer_p is None else dict(ok=layer_p.get('ok'), functions=layer_p.get('functions'), theorems=len(layer_p.get('theorems') or []), failed=layer_p.get('failed'))), static_c19=(None if static is None else dict(ok=static[0], roots=static[1].get('roots'), functions=static[1].get('functions'), functions_with_write_primitive=static[1].get('functions_with_write_primitive'), clone=static[1].get('clone'), not_covered=static[1].get('not_covered'))),
             traces_validated_against_impl=tot_traces, evaluations=tot_steps, distinct_nontrivial=nontriv,
             rule='one evaluation = one observed step (pre-state, operation, result, post-state) of the real LruCache, checked against the extracted Coq model started from the observed pre-state and against the extracted monitors; distinct = distinct (operation, pre-state entries, limit) triples; non-trivial = pre-state non-empty',
             components_checked={k: v for k, v in sorted(checked.items()) if k in comp_table(cfg)},
@@ -543,7 +567,12 @@ def main():
 
     for k, sig in known_hits:
         print('KNOWN-FINDING: property=%s %s (%s)' % (pid, k['what'], sig))
+    # a broken proof obligation / correspondence is reported on its own (no-failing-input-found) only when the search found no
+    # concrete failing input; otherwise the concrete input is the replay and the broken tie is a note beside it
+    concrete = [v for v in violations if not v[2]]
     for path, what, nofound in violations:
+        if nofound and concrete:
+            print('NOTE: also no longer checks: %s (%s)' % (what, path)); continue
         print('VIOLATION property=%s replay=%s%s' % (pid, path, ' no-failing-input-found' if nofound else ''))
         print('  ' + what)
     if not violations:
